@@ -7,6 +7,7 @@ from .values import *
 from .core import OutOfSubset, PyRaise, EngineError, Budget
 from . import ops, structmodel
 from . import models as M
+from . import numpy_model as _np        # 1-D numpy arrays (C13 / C16)
 from .ops import (zterm, mk_int, mk_bool, zbool, is_intlike, is_floatlike, is_number, is_seq, seq_items, py_eq,
                   compare, binop, conj, disj)
 
@@ -80,6 +81,8 @@ def list_index_of(I, items, x):
 # ------------------------------------------------------------------ getattr for non-Obj values
 
 def value_getattr(I, o, name):
+    if hasattr(o, 'np_getattr'):        # numpy arrays, scipy Rotation fragment (numpy_model.py)
+        return o.np_getattr(I, name)
     if isinstance(o, (PList, PBytearray)):
         return list_method(I, o, name)
     if isinstance(o, SSeq):
@@ -1373,6 +1376,8 @@ def _thread_sched_point(I, st, must):
 
 
 def getitem(I, o, k):
+    if isinstance(o, _np.NDArray):
+        return _np.getitem(I, o, k)
     if o is None or is_number(o):
         I.raise_py('TypeError', "'%s' object is not subscriptable" % M.type_name(I, o))
     if isinstance(o, RangeVal) and isinstance(k, int):
@@ -1381,6 +1386,8 @@ def getitem(I, o, k):
 
 
 def setitem(I, o, k, v):
+    if isinstance(o, _np.NDArray):
+        return _np.setitem(I, o, k, v)
     if isinstance(o, SSeq) and o.kind in ('list', 'bytearray'):
         n = z3.Length(o.t)
         t = zterm(k)
@@ -1399,3 +1406,6 @@ def setitem(I, o, k, v):
 # ------------------------------------------------------------------ urllib.parse / re / unhexlify models (added for C20)
 from . import models_uri as _uri   # noqa: E402
 _uri.install(EXTERNALS, _fn)
+
+# ------------------------------------------------------------------ numpy (1-D arrays; added for C13 / C16)
+_np.install(EXTERNALS, _fn)
